@@ -80,7 +80,17 @@ pub fn gen_match(seed: u64, n: usize) -> Vec<Value> {
             let pool = ["the", "The", "a", "A", "cat", "CAT", "dog", "x", "", "é", "É", "über", "Über", "ÜBER", "ж", "Ж", "10\u{a0}km", "a\u{3000}b", "x\u{2028}",
                         "\u{212A}m", "km", "\u{023A}", "\u{2C65}", "STRA\u{1E9E}E", "straße",
                         // words that are the tail of another word ("together" / "to gether")
-                        "together", "gether", "to", "at", "og"];
+                        "together", "gether", "to", "at", "og",
+                        // Greek: a capital sigma at the end of a word is a final sigma in lower case
+                        "\u{039F}\u{0394}\u{039F}\u{03A3}", "\u{03BF}\u{03B4}\u{03BF}\u{03C2}", "\u{03BF}\u{03B4}\u{03BF}\u{03C3}"];
+            // twin pairs that differ only in where a line feed ends the first text: ("x\ny", "z") and ("x", "y\nz")
+            if i % 100 == 30 || i % 100 == 31 {
+                let ws = ["x", "y", "z", "y", "x"];
+                let k = (i / 100) % 3;
+                let (a, b) = if i % 100 == 30 { (format!("{}\n{}", ws[k], ws[k + 1]), ws[k + 2].to_string()) }
+                             else { (ws[k].to_string(), format!("{}\n{}", ws[k + 1], ws[k + 2])) };
+                return json!({"a": a, "b": b, "fold": (i / 300) % 2 == 0});
+            }
             // a few pairs have 63, 64 or 65 words (the width of a machine word) on one or both sides
             if i % 60 == 9 {
                 let la = [63usize, 64, 64, 65][rng.random_range(0..4)];
